@@ -14,21 +14,33 @@ FUNCTIONS = ["evbuffer_add", "evbuffer_prepend", "evbuffer_drain", "evbuffer_rem
              "evbuffer_search_range", "evbuffer_search_eol", "evbuffer_readln", "evbuffer_ptr_set", "evbuffer_peek", "evbuffer_add_iovec",
              "evbuffer_freeze", "evbuffer_unfreeze", "evbuffer_free", "evbuffer_chain_*", "evbuffer_expand_singlechain", "evbuffer_expand_fast_",
              "APPEND_CHAIN", "PREPEND_CHAIN", "APPEND_CHAIN_MULTICAST", "COPY_CHAIN", "advance_last_with_data", "evbuffer_free_trailing_empty_chains"]
-BOUNDS = ("2 buffers + 1 multicast source; chain payload capacity 16 (64-byte chains) and 80 (128-byte chains); prefix <= 1 op (quick) / <= 2 ops "
-          "(thorough) with sizes from {0,1,3,15,16,17} plus hand-picked longer scenario prefixes; final operation: size argument <= 8 "
-          "(positions, drain/remove/copyout/pullup lengths, eol style, flags unconstrained), <= 6 chains, <= 64 stored bytes per buffer")
-OUT = ("production chain size (MIN_BUFFER_SIZE 1024), sizes near SIZE_MAX, file segments and sendfile chains (C15), socket I/O (C16), "
-       "add_printf (needs a vsnprintf model), pinned chains (only IOCP pins), states reachable only by >= 3 operations (except the listed "
-       "scenario prefixes) or by two consecutive symbolic-size operations; overruns inside the slack of the VP_OBJ-sized heap objects")
-TEXT = ("For every enumerated prefix state and every value of the final operation's arguments the buffer length, contents (read from the "
-        "chains), returned counts/pointers/positions and refusals equal the byte-string model's, the chain invariant holds, referenced user "
-        "memory is untouched and freeing everything balances the allocator.")
-NOTE = ("Trusted: cbmc 6.11, the allocator/copy models (env/evbuf_alloc.h, env/evbuf_copy.h), ref/bytes.h written from event2/buffer.h, "
-        "LP64. Assert-enabled encoding (EVUTIL_ASSERT failures are violations); NDEBUG twins in the thorough tier.")
-ASSUMPTIONS = ["every heap object has the literal size VP_OBJ=160 (requests <= 160 asserted)",
+BOUNDS = ("2 buffers + 1 multicast source (add_buffer_reference); scaled chains: 16 payload bytes (64-byte chain) and 80 (128-byte chain); "
+          "prefix: every listed state of <= 1 operation (quick) / <= 2-3 operations (thorough) with sizes from {0,1,2,3,5,8,15,16,17,20} plus the "
+          "shared-source scenario (5 operations); final operation: adders (add/prepend/add_reference/expand/reserve+commit/add_iovec) every size "
+          "0..18, takers (drain/remove/copyout(_from)/pullup/remove_buffer/ptr_set/peek) every length or position 0..stored+1 (pullup also -1), "
+          "all other arguments (positions, lengths, offsets, commit lengths <= 8, vector counts) and all payload bytes symbolic; the 'sym_' "
+          "obligations repeat the core operations with the size itself symbolic (<= 8) and no case split; <= 6 chains, <= 64 stored bytes")
+OUT = ("production chain size (MIN_BUFFER_SIZE 1024) and sizes near SIZE_MAX; file segments and sendfile chains (C15); socket I/O (C16); "
+       "add_printf/add_vprintf (no vsnprintf model); evbuffer_search/search_range/search_eol/readln (reference implementations exist in "
+       "ref/bytes.h and the harness, but they did not finish within budget fully symbolic: see NOTE); pinned chains (only the IOCP backend "
+       "pins); states reachable only by longer histories than listed or by two consecutive symbolic-size operations; overruns inside the "
+       "slack of the VP_OBJ-sized heap objects; locking (evbuffers without lock)")
+TEXT = ("For every enumerated prefix state and every value of the final operation's arguments: the return value / returned count, pointer or "
+        "position and every refusal (frozen end, out-of-range) equal the byte-string model's; afterwards each buffer's length and EVERY stored byte "
+        "(read straight from the chains at a solver-chosen index) equal the model; the chain invariant of evbuffer-internal.h holds (first/last/"
+        "last_with_datap, total_len == sum off, misalign+off <= buffer_len, empties only trailing); referenced user memory is untouched; live "
+        "allocations == objects reachable from the buffers and reference cleanups ran exactly once per released reference; 'free_' obligations: "
+        "evbuffer_free of everything balances the allocator; every EVUTIL_ASSERT in the code is an obligation (assert-enabled build) with NDEBUG twins.")
+NOTE = ("Trusted: cbmc 6.11 + minisat2/kissat, the allocator/copy models (env/evbuf_alloc.h, env/evbuf_copy.h), ref/bytes.h written from "
+        "event2/buffer.h, LP64. The case split over the size argument (harness: VP_SPLIT) is an encoding device: the solver still chooses the "
+        "value, each value just gets its own copy of the step so chain offsets stay concrete (71 s -> 14 s per obligation, and sizes up to 18 "
+        "instead of 8 become affordable). Findings on the pinned tree (each with /verif/fixes/<name>.diff, reproduced natively): "
+        "C12-pullup-immutable-multicast, C12-add-buffer-reference-dangling-first (double free), C12-reserve-space-zero-assert; the obligations "
+        "shared_*, expand8_b*__addbufref, add16__reserve_commit2, prepend3__reserve_commit2 FAIL without these patches and pass with them.")
+ASSUMPTIONS = ["every heap object has the literal size VP_OBJ=160 (requests <= 160 asserted, i.e. chains of 64 and 128 bytes and struct evbuffer)",
                "memcpy/memmove/memchr/memcmp are the byte loops of env/evbuf_copy.h",
-               "locking disabled (evbuffer without lock); no parent bufferevent",
-               "remove/copyout destination <= 64 bytes; reserve/commit: user commits <= 24 bytes per extent and does not leave the first of two extents empty while filling the second",
+               "locking disabled (evbuffer without lock); no parent bufferevent; callbacks none (C13 adds them)",
+               "remove/copyout destination <= 64 bytes; expand argument <= 24; reserve/commit: the user commits <= 8 bytes per extent and does not leave the first of two extents empty while filling the second",
                "allocation never fails (C14 lifts this)"]
 DESIGN_REF = "DESIGN.md §5 C12, §3.3, §3.4"
 
